@@ -327,9 +327,11 @@ def corrupt_crc(data, pred):
     return bytes(b), hit
 
 
-DAMAGED = [("open_office/image_extraction.odt", lambda n: n.startswith("Pictures/"), "odt_extractor"),
-           ("open_office/headings.odt", lambda n: n.startswith("Pictures/"), "odt_extractor"),
-           ("modern_ms/headings.docx", lambda n: "media/" in n, "docx_extractor")]
+_PIC = lambda n: n.startswith("Pictures/") or "media/" in n   # noqa: E731
+DAMAGED = [("open_office/image_extraction.odt", _PIC, "odt_extractor"), ("open_office/headings.odt", _PIC, "odt_extractor"),
+           ("modern_ms/headings.docx", _PIC, "docx_extractor"), ("open_office/image_extraction.ods", _PIC, "ods_extractor"),
+           ("open_office/image_extraction.odp", _PIC, "odp_extractor"), ("open_office/drawing.odg", _PIC, "odg_extractor"),
+           ("modern_ms/pptx_formula_image.pptx", _PIC, "pptx_extractor"), ("modern_ms/image_in_excel.xlsx", _PIC, "xlsx_extractor")]
 
 
 def find_damaged_member(file_key, kinds=("image-number",)):
@@ -528,6 +530,10 @@ def sweep(kinds=None, cls=None, fixtures_only=False):
     if not fixtures_only:
         for label, units in rtf_cases():
             docs.append((f"crafted:{label}.rtf", rtf_with_units(units)))
+        for rel, pred, _key in DAMAGED:
+            f = os.path.join(RES, rel)
+            if os.path.exists(f):
+                docs.append((f, corrupt_crc(open(f, "rb").read(), pred)[0]))
     for name, data in docs:
         for path in ("<same>", None):
             try:
@@ -568,6 +574,15 @@ def find(req):
             for (p_, f_, want, got) in bad:
                 s.append({"kind": "metadata", "where": f"{r} get_metadata().{f_}", "detail": f"stored {want!r}, reported {got!r}", "file": f"crafted:{name}"})
         return {"reproduced": bool(s), "failures": s[:50], "count": len(s), "files": len(fixture_files())}
+    if "assumed-model-validation" in ob:
+        s = sweep(fixtures_only=True)
+        if s:
+            return {"reproduced": True, "target": "sharepoint2text extractors (fixture sweep)", "inputs": {"file": s[0]["file"], "path_given": s[0].get("path_given")},
+                    "expected": "every accessor of every result / unit / image / table honours the interface", "observed": f"{s[0]['where']}: {s[0]['detail']}",
+                    "failures": len(s)}
+        from replay import c04_meta
+        r = c04_meta.find("")
+        return r
     if "/wf#chr-site" in ob:
         if "rtf_extractor" in ob:
             return find_rtf(ob.split("::")[1].split("/")[0], n)
